@@ -137,14 +137,20 @@ fn schedule_lf(r: VRunnable, tag: u64) {
 fn pop_lf(tag: u64) -> Option<VRunnable> {
     let p = LF_SLOTS[tag as usize % NSLOTS].swap(std::ptr::null_mut(), std::sync::atomic::Ordering::Acquire);
     if p.is_null() {
-        pop_runnable(tag)
+        // The mutex-protected fallback queue is only consulted when it can hold
+        // something (locking it on every idle spin would synchronise the runners).
+        if LF_DOUBLE.load(Relaxed) > 0 {
+            pop_runnable(tag)
+        } else {
+            None
+        }
     } else {
         // Safety: see schedule_lf; the swap made this thread the only owner.
         Some(*unsafe { Box::from_raw(p) })
     }
 }
 fn queued_lf(tag: u64) -> usize {
-    (!LF_SLOTS[tag as usize % NSLOTS].load(Relaxed).is_null()) as usize + queued(tag)
+    (!LF_SLOTS[tag as usize % NSLOTS].load(Relaxed).is_null()) as usize + if LF_DOUBLE.load(Relaxed) > 0 { queued(tag) } else { 0 }
 }
 
 // ------------------------------------------------------------------ sequential
@@ -523,7 +529,7 @@ fn conc_case(seed: u64) -> (Vec<(String, String)>, u64, u64) {
     rec::reset(&cfg);
     let ntasks = if cfg!(miri) { 1 } else { rng.range(1, 4) as usize };
     let nwakers = rng.range(1, 2) as usize;
-    let wakes_per = if cfg!(miri) { rng.range(2, 5) } else { rng.range(5, 200) };
+    let wakes_per = if cfg!(miri) { rng.range(3, 8) } else { rng.range(5, 200) };
     let with_cancel = rng.chance(1, 3);
     let with_promise = rng.chance(2, 3);
     let mut tasks = Vec::new();
@@ -548,7 +554,7 @@ fn conc_case(seed: u64) -> (Vec<(String, String)>, u64, u64) {
     // Runner threads: with two of them successive polls of one task alternate
     // between threads (the hand-over of a task from one polling thread to
     // another is what the Acquire load at the beginning of `run` orders).
-    let nrunners = if rng.chance(1, 2) { 2 } else { 1 };
+    let nrunners = if cfg!(miri) || rng.chance(1, 2) { 2 } else { 1 };
     let mut extra_runners = Vec::new();
     for _ in 1..nrunners {
         let stop = stop.clone();
@@ -637,6 +643,18 @@ fn conc_case(seed: u64) -> (Vec<(String, String)>, u64, u64) {
                         drop(w);
                     }
                     calls.push((ti, s, val));
+                    // Mostly wait (Relaxed polling, no synchronisation) until the
+                    // wake-up has been served, so that the next one creates a new
+                    // runnable instead of being absorbed by the pending one.
+                    if rng.chance(if cfg!(miri) { 3 } else { 1 }, 4) {
+                        let before = sts[ti].polls.load(Relaxed);
+                        for _ in 0..(if cfg!(miri) { 60 } else { 50 }) {
+                            if sts[ti].polls.load(Relaxed) != before || sts[ti].completed.load(Relaxed) {
+                                break;
+                            }
+                            std::thread::yield_now();
+                        }
+                    }
                 }
                 if rng.chance(1, 3) {
                     std::thread::yield_now();
@@ -670,8 +688,14 @@ fn conc_case(seed: u64) -> (Vec<(String, String)>, u64, u64) {
     }
     stop.store(true, SeqCst);
     let mut runs = runner.join().unwrap();
+    let mut per_runner = vec![runs];
     for h in extra_runners {
-        runs += h.join().unwrap();
+        let r = h.join().unwrap();
+        per_runner.push(r);
+        runs += r;
+    }
+    if std::env::var_os("NXV_DEBUG").is_some() {
+        eprintln!("conc case seed {:x}: tasks {} runners {:?} wakers {} wakes/waker {} cancel {} promise {}", seed, ntasks, per_runner, nwakers, wakes_per, with_cancel, with_promise);
     }
     // Quiescence: oracle.
     let mut viol: Vec<(String, String)> = Vec::new();
